@@ -38,7 +38,7 @@ EXPLANATION = "update data flow proved for all values under the all-gather contr
 
 
 def cases(tier):
-    return D.update_params_cases("ddp") + ["trace/step", "trace/alloc", "ri/world2", "ri/world3"]
+    return D.update_params_cases("ddp") + ["trace/step", "trace/alloc", "ri/world2", "ri/world3", "ribare/ddp"]
 
 
 def _ri_case(case):
@@ -104,6 +104,8 @@ def run_case(case, tier, seed):
         return D.run_trace_step(case)
     if case == "trace/alloc":
         return D.run_trace_alloc(case)
+    if case.startswith("ribare/"):
+        return D.run_ri_bare(case, "ddp")
     return _ri_case(case)
 
 
